@@ -189,5 +189,8 @@ fixed("C13", "9c89eba", ["c13:random:valid-sequence-rejected", "c13:random:valid
 fixed("C13", "2dcd717", ["c13:ping:pong-payload-differs", "c13:random:valid-sequence:unexpected-other-frame"] + ["c13:%s:%s" % (c, k) for c in ("close-payload-length-1", "continuation-without-start", "control-fragmented", "control-over-125", "data-frame-inside-fragmented-message", "illegal-close-code", "invalid-utf8-close-reason", "invalid-utf8-text", "len64-top-bit", "reserved-bit", "reserved-opcode") for k in ("event-before-offending-frame-wrong", "event-after-failure-close-frame")],
       "WriteMessage fragments control frames when MaxWebsocketFramePayloadSize is below their payload length: the pong answering a ping and the close reply are written as FIN=0 control frames followed by continuation frames (random sequences with the sender's frame size in {1,16,100,124}; side remark of a seeding agent)")
 
+fixed("C03", "9cf64cc", ["c03:%s:owner-close-around-add:close-before-open" % m for m in ("LT", "ET", "ONESHOT", "ET-async", "ONESHOT-async")],
+      "a connection closed by its owner while AddConn hands it to the poller: the connection has its poller before the open notification is delivered, so the close path can queue the close notification first (a hole in repair add344e; met once in 2880 thorough cases under load, step owner-close-around-add / close-race; the window is a few instructions wide and was not hit again in 20000 directed attempts on a quiet machine)")
+
 json.dump(F, open("/verif/known_findings.json", "w"), indent=1)
 print("wrote %d entries (%d known)" % (len(F), sum(1 for f in F if f["status"] == "known")))
